@@ -133,7 +133,7 @@ func refMerge(wl *wlMerge) *expMerge {
 			if b.Extend {
 				continue
 			}
-			et := &expType{module: f.Module, file: f.Name, rels: map[string]*expRel{}}
+			et := &expType{module: f.Module, file: f.deliveredName(), rels: map[string]*expRel{}}
 			for _, r := range b.Type.Relations {
 				et.rels[r.Name] = &expRel{expr: exprKey(r.Expr), direct: fmt.Sprint(r.Direct)}
 			}
@@ -141,7 +141,7 @@ func refMerge(wl *wlMerge) *expMerge {
 		}
 		for _, c := range f.Conds {
 			e.conds[c.Name] = c
-			e.cmod[c.Name] = [2]string{f.Module, f.Name}
+			e.cmod[c.Name] = [2]string{f.Module, f.deliveredName()}
 		}
 	}
 	for _, f := range wl.Files {
@@ -157,7 +157,7 @@ func refMerge(wl *wlMerge) *expMerge {
 				continue
 			}
 			for _, r := range b.Type.Relations {
-				et.rels[r.Name] = &expRel{expr: exprKey(r.Expr), direct: fmt.Sprint(r.Direct), module: f.Module, file: f.Name}
+				et.rels[r.Name] = &expRel{expr: exprKey(r.Expr), direct: fmt.Sprint(r.Direct), module: f.Module, file: f.deliveredName()}
 			}
 		}
 	}
@@ -278,7 +278,7 @@ func checkConflicts(o *mergeOutcome, wl *wlMerge, order []int, conflicts []Confl
 	}
 	delivered := map[string]bool{}
 	for _, i := range order {
-		delivered[wl.Files[i].Name] = true
+		delivered[wl.Files[i].deliveredName()] = true
 	}
 	for _, e := range o.Errs {
 		if e.File != "" && !delivered[e.File] {
@@ -670,11 +670,9 @@ func mergeRunOne(b *BatchResult, prop string, seed, run uint64, nRandom int) {
 		b.addStats(st, nontriv)
 		report(&w3, s, mm, st)
 	}
-	// two different files delivered under one name (C12 only: what that should
-	// MEAN is not fixed by any statement, so C07's oracle does not apply, but
-	// the outcome must still be the same on every invocation and the verdict
-	// independent of the order)
-	if prop == "C12" && run%5 == 0 && len(wl.Files) >= 2 {
+	// two different files delivered under one name: every declaration of both
+	// still counts ("none lost"), attribution and blame go to the shared name
+	if run%5 == 0 && len(wl.Files) >= 2 {
 		var w5 wlMerge
 		bj, _ := json.Marshal(wl)
 		_ = json.Unmarshal(bj, &w5)
@@ -820,10 +818,10 @@ func deriveConflicts(wl *wlMerge, order []int) []Conflict {
 		f := wl.Files[i]
 		switch f.Kind {
 		case "nonmodule":
-			out = append(out, Conflict{Kind: "nonmodule", Files: []string{f.Name}})
+			out = append(out, Conflict{Kind: "nonmodule", Files: []string{f.deliveredName()}})
 			continue
 		case "syntaxerr":
-			out = append(out, Conflict{Kind: "syntaxerr", Files: []string{f.Name}})
+			out = append(out, Conflict{Kind: "syntaxerr", Files: []string{f.deliveredName()}})
 			continue
 		}
 		// problems the parser reports for a single file
@@ -852,15 +850,15 @@ func deriveConflicts(wl *wlMerge, order []int) []Conflict {
 			cseen[c.Name] = true
 		}
 		if parseProblem {
-			out = append(out, Conflict{Kind: "syntaxerr", Files: []string{f.Name}})
+			out = append(out, Conflict{Kind: "syntaxerr", Files: []string{f.deliveredName()}})
 			continue
 		}
 		for _, b := range f.Blocks {
 			if b.Extend {
-				exts = append(exts, ext{f.Name, b.Type})
+				exts = append(exts, ext{f.deliveredName(), b.Type})
 				continue
 			}
-			typeDecl[b.Type.Name] = append(typeDecl[b.Type.Name], decl{f.Name, p})
+			typeDecl[b.Type.Name] = append(typeDecl[b.Type.Name], decl{f.deliveredName(), p})
 			if len(typeDecl[b.Type.Name]) == 1 {
 				baseRels[b.Type.Name] = map[string]bool{}
 				for _, r := range b.Type.Relations {
@@ -869,7 +867,7 @@ func deriveConflicts(wl *wlMerge, order []int) []Conflict {
 			}
 		}
 		for _, c := range f.Conds {
-			condDecl[c.Name] = append(condDecl[c.Name], decl{f.Name, p})
+			condDecl[c.Name] = append(condDecl[c.Name], decl{f.deliveredName(), p})
 		}
 	}
 	names := func(m map[string][]decl) []string {
